@@ -127,6 +127,45 @@ def error_facts(src):
     return tpl, status, desc
 
 
+def response_facts(repo):
+    """C06: every data-bearing response renders dds(self.dataset) first, then its own part of the SAME self.dataset;
+    BaseHandler.__call__ hands the response the dataset built from the (possibly cleared) query"""
+    out = {"dds_iter": False, "dods_iter": False, "ascii_iter": False, "call_one_dataset": False}
+
+    def iter_shape(path, cls):
+        tree = ast.parse(open(os.path.join(repo, path)).read())
+        f = find_method(tree, cls, "__iter__")
+        if f is None:
+            return None
+        body = [st for st in f.body if not (isinstance(st, ast.Expr) and isinstance(st.value, ast.Constant) and isinstance(st.value.value, str))]
+        shape = []
+        for st in body:
+            if isinstance(st, ast.For) and isinstance(st.iter, ast.Call) and isinstance(st.iter.func, ast.Name) \
+                    and len(st.iter.args) == 1 and ast.unparse(st.iter.args[0]) == "self.dataset" and not st.iter.keywords \
+                    and len(st.body) == 1 and isinstance(st.body[0], ast.Expr) and isinstance(st.body[0].value, ast.Yield):
+                shape.append("for:" + st.iter.func.id)
+            elif isinstance(st, ast.Expr) and isinstance(st.value, ast.Yield):
+                shape.append("yield")
+            else:
+                shape.append("other")
+        return shape
+    try:
+        out["dds_iter"] = iter_shape("src/pydap/responses/dds.py", "DDSResponse") == ["for:dds"]
+        out["dods_iter"] = iter_shape("src/pydap/responses/dods.py", "DODSResponse") == ["for:dds", "yield", "for:dods"]
+        out["ascii_iter"] = iter_shape("src/pydap/responses/ascii.py", "ASCIIResponse") == ["for:dds", "yield", "for:ascii"]
+        tree = ast.parse(open(os.path.join(repo, "src/pydap/handlers/lib.py")).read())
+        call = find_method(tree, "BaseHandler", "__call__")
+        txt = [ast.unparse(n) for n in ast.walk(call) if isinstance(n, ast.Assign)]
+        has_parse = any(t.startswith("dataset = self.parse(projection, selection") for t in txt)
+        has_ce = any(t == "projection, selection = parse_ce(req.query_string)" for t in txt)
+        has_app = any(t == "app = self.responses[response](dataset)" for t in txt)
+        n_ds = sum(1 for t in txt if t.startswith("dataset ="))
+        out["call_one_dataset"] = has_parse and has_ce and has_app and n_ds == 1
+    except Exception:
+        pass
+    return out
+
+
 SESSION_CALLEES = {"SequenceProxy", "BaseProxyDap2", "BaseProxyDap4", "ServerFunction", "ServerFunctionResult",
                    "DAPHandler", "open_dods_url", "GET", "self.__class__", "Functions"}
 
@@ -186,6 +225,9 @@ def main():
     lines.append("Definition session_forwarding : list (string * bool) := [")
     lines.append(";\n".join("  (%s, %s)" % (coq_string(t), str(b).lower()) for t, b in sf))
     lines.append("].")
+    rf = response_facts(REPO)
+    for k in ("dds_iter", "dods_iter", "ascii_iter", "call_one_dataset"):
+        lines.append("Definition fact_%s := %s." % (k, str(rf[k]).lower()))
     text = "\n".join(lines) + "\n"
     os.makedirs(os.path.dirname(OUT), exist_ok=True)
     old = open(OUT).read() if os.path.exists(OUT) else None
